@@ -85,7 +85,10 @@ WithLength(al, sz, n, content(_, _)) ==
   ELSE WithUnconstrainedLength(al, n, content)
 
 \* 10.6 normally small non-negative whole number
-NormallySmall(n, al) ==
+\* Deviation DevPerNormallySmallNumberNoAlign (per.py append_normally_small_non_negative_whole_number):
+\* for n >= 64 the ALIGNED variant does not octet-align the length and the value after the 1 bit
+NormallySmall(n, al0, S) ==
+  LET al == al0 /\ "DevPerNormallySmallNumberNoAlign" \notin S IN
   IF n <= 63 THEN Field(<<0>> \o NatToBits(n, 6))
   ELSE LET octs == NatToMinOctets(n)
        IN Field(<<1>>) \o WithUnconstrainedLength(al, Len(octs), LAMBDA f, t : Align(al) \o OctetsField(SubSeq(octs, f, t)))
@@ -138,14 +141,20 @@ SortedByValue(items) == InsSort(items, LAMBDA x, y : IF x.v < y.v THEN -1 ELSE I
 
 IndexOfName(items, name) == CHOOSE i \in 1..Len(items) : items[i].n = name
 
-EncEnumerated(env, T, v, al) ==
+\* Deviation DevPerEnumIndexBitField (per.py Enumerated.encode): the ALIGNED variant writes the root
+\* index of an ENUMERATED as a bit-field of the minimum number of bits even when there are more than
+\* 255 root items (10.5.7.2, 10.5.7.3: one octet / two octets, octet-aligned); CHOICE is right
+IndexField(n, idx, al, S) ==
+  ConstrainedWholeNumber(Zero, FromInt(n - 1), FromInt(idx), al /\ "DevPerEnumIndexBitField" \notin S)
+
+EncEnumerated(env, T, v, al, S) ==
   LET root == SortedByValue(T.root)
       ext == IsExt(env, T)
       inRoot == \E i \in 1..Len(root) : root[i].n = v
   IN IF inRoot
      THEN (IF ext THEN Field(<<0>>) ELSE <<>>)
-          \o ConstrainedWholeNumber(Zero, FromInt(Len(root) - 1), FromInt(IndexOfName(root, v) - 1), al)   \* 13.2
-     ELSE Field(<<1>>) \o NormallySmall(IndexOfName(T.adds, v) - 1, al)                                     \* 13.3
+          \o IndexField(Len(root), IndexOfName(root, v) - 1, al, S)                                          \* 13.2
+     ELSE Field(<<1>>) \o NormallySmall(IndexOfName(T.adds, v) - 1, al, S)                                     \* 13.3
 
 ------------------------------------------------------------------------------
 (* 15 BIT STRING, 16 OCTET STRING                                           *)
@@ -313,10 +322,10 @@ EncChoice(env, T, v, al, S) ==
      THEN LET ri == CHOOSE i \in 1..Len(T.root) : T.root[i].n = v.a
               idx == CHOOSE j \in 1..Len(order) : order[j] = ri
           IN (IF ext THEN Field(<<0>>) ELSE <<>>)
-             \o ConstrainedWholeNumber(Zero, FromInt(Len(T.root) - 1), FromInt(idx - 1), al)     \* 23.6
+             \o IndexField(Len(T.root), idx - 1, al, {})                                         \* 23.6
              \o PerEnc(env, T.root[ri].t, v.v, al, S)
      ELSE LET ai == CHOOSE i \in 1..Len(T.adds) : T.adds[i].n = v.a
-          IN Field(<<1>>) \o NormallySmall(ai - 1, al)                                          \* 23.8
+          IN Field(<<1>>) \o NormallySmall(ai - 1, al, S)                                          \* 23.8
              \o OpenType(PerEnc(env, T.adds[ai].t, v.v, al, S), al, S)
 
 PerEnc(env, T, v, al, S) ==
@@ -324,7 +333,7 @@ PerEnc(env, T, v, al, S) ==
     [] T.k = "BOOL" -> Field(<<IF v THEN 1 ELSE 0>>)                                              \* 12
     [] T.k = "NULL" -> <<>>                                                                      \* 24
     [] T.k = "INT" -> EncInteger(T, v, al, S)
-    [] T.k = "ENUM" -> EncEnumerated(env, T, v, al)
+    [] T.k = "ENUM" -> EncEnumerated(env, T, v, al, S)
     [] T.k = "REAL" -> LengthPrefixedOctets(RealContents(v), al)                                  \* 15
     [] T.k = "OID" -> LengthPrefixedOctets(OidContents(v), al)                                    \* 24
     [] T.k = "BITS" -> EncBitString(T, v, al)
